@@ -11,7 +11,7 @@ AllAssignments == {[c \in C4 |-> IF c \in Core THEN f[c] ELSE g[c]] : f \in [Cor
 FewAssignments == {[c \in C4 |-> g] : g \in Grid} \cup
                   {[c \in C4 |-> IF c \in {"ARG", "SWT"} THEN <<3, 2>> ELSE <<1, 2>>], [c \in C4 |-> IF c = "USA" THEN <<0, 1>> ELSE <<3, 2>>],
                    [c \in C4 |-> IF c \in {"DJI", "NZL"} THEN <<1, 1>> ELSE <<1, 2>>], [c \in C4 |-> IF c \in {"DJI", "MUS"} THEN <<3, 2>> ELSE <<0, 1>>]}
-CountryTab == [r \in RunTypes |-> CASE r \in {"r_arg_base", "r_bad", "r_arg_kf", "r_arg_herd"} -> "ARG" [] r = "r_usa_nw" -> "USA"
+CountryTab == [r \in RunTypes |-> CASE r \in {"r_arg_base", "r_bad", "r_arg_kf", "r_arg_herd", "r_arg_own48"} -> "ARG" [] r = "r_usa_nw" -> "USA"
                                      [] r = "r_dji_res" -> "DJI" [] r = "r_wor" -> "WOR" [] r = "r_alb_kf" -> "ALB"]
 OptTab == [r \in RunTypes |-> IF r \in {"r_alb_kf", "r_arg_kf"} THEN "known_to_fail_for_ALB" ELSE r]
 PosTab == [c \in {"ALB", "ARG", "DJI", "USA", "WOR"} |-> CASE c = "ALB" -> 1 [] c = "ARG" -> 5 [] c = "DJI" -> 40 [] c = "USA" -> 150 [] c = "WOR" -> 999]
